@@ -310,6 +310,10 @@ ObjSizeOf(ord) == LET mi == Lookup("obj", ord, <<>>) IN
 
 ParseAny(sec, ord, uuid, b) == CASE sec = "msg" -> ParseMsg(b)
                                  [] sec \in {"system", "game"} -> ParseMsgAs(sec, b)
+                                 \* the same through libtw2_gamenet_common::traits (MessageExt, SnapObj)
+                                 [] sec = "tsystem" -> ParseMsgAs("system", b)
+                                 [] sec = "tgame" -> ParseMsgAs("game", b)
+                                 [] sec = "tobj" -> ParseObj(ord, uuid, b)
                                  [] sec = "connless" -> ParseConnless(b)
                                  [] sec = "obj" -> ParseObj(ord, uuid, b)
 
